@@ -2,7 +2,7 @@
    observed on the Go implementation for it. *)
 From Coq Require Import ZArith NArith List Bool.
 From GoCoap Require Import Base.Bytes Base.Cases Gen.OptionDefs Gen.TcpConsts
-     Codec.Options Codec.Udp Codec.Tcp Codec.Pool Codec.Spec.
+     Codec.Options Codec.Udp Codec.Tcp Codec.Pool Codec.Spec Codec.SpecCode.
 From GoCoap Require Export Codec.Run.
 Import ListNotations.
 Open Scope Z_scope.
@@ -23,7 +23,12 @@ Inductive case :=
    front: at each position Decode (option capacity cap), DecodeHeader and the pooled
    UnmarshalWithDecoder see ALL the remaining bytes; the position advances by the count
    Decode returned; at most |ms| + 1 positions.  o_frames: what was observed per position. *)
-| Strm (ms : list msg) (tail : list Z) (cap : Z) (o_frames : list (dobs * hobs * dobs)).
+| Strm (ms : list msg) (tail : list Z) (cap : Z) (o_frames : list (dobs * hobs * dobs))
+(* Datagram, every code byte: m is encoded ONCE by the datagram coder; then, for each c of
+   [codes], the Code field (offset 1) of a copy of the produced bytes is overwritten with c and
+   the copy goes through Decode (option capacity cap) and through the pooled
+   UnmarshalWithDecoder.  o_codes: per code (Decode, pooled).  Empty when the coder refused m. *)
+| UCodes (m : msg) (cap : Z) (codes : list Z) (o_codes : list (dobs * dobs)).
 
 (* the harness loop of a Strm case, on the model *)
 Fixpoint frames_obs (fuel : nat) (cap : Z) (data : list Z) : list (dobs * hobs * dobs) :=
@@ -50,8 +55,19 @@ Fixpoint concat_some (l : list (option (list Z))) : option (list Z) :=
 Definition frame_obs_eqb (a b : dobs * hobs * dobs) : bool :=
   let '(d1, h1, p1) := a in let '(d2, h2, p2) := b in dobs_eqb d1 d2 && hobs_eqb h1 h2 && dobs_eqb p1 p2.
 
+Definition pair_obs_eqb (a b : dobs * dobs) : bool := dobs_eqb (fst a) (fst b) && dobs_eqb (snd a) (snd b).
+
 Definition agrees (c : case) : bool :=
   match c with
+  | UCodes m cap codes o_codes =>
+    match model_bytes 0 m with
+    | Some bs =>
+      list_eqb pair_obs_eqb
+        (map (fun c => let b := put_code bs c in
+                       (dobs_of (udp_decode cap b), fst (pu_obs (pool_decode (pool_fuel b) udp_decode 16 b)))) codes)
+        o_codes
+    | None => match o_codes with [] => true | _ => false end
+    end
   | Strm ms tail cap o_frames =>
     match concat_some (map (model_bytes 1) ms) with
     | Some bs => list_eqb frame_obs_eqb (frames_obs (S (length ms)) cap (bs ++ tail)) o_frames
@@ -85,7 +101,10 @@ Definition agrees (c : case) : bool :=
    6 pooled marshal/unmarshal differs, 7 message outside the preconditions
    accepted, 9 datagram type 4..255 accepted and truncated (F9),
    8 stream Decode of a buffer that continues after the frame: message differs or the
-   consumed count is not the number of bytes the encoder produced for that frame. *)
+   consumed count is not the number of bytes the encoder produced for that frame,
+   10 datagram framing: the decoded options / payload / header fields of a well-formed
+   message depend on its code byte (datagram framing has ONE option registry; a code byte
+   225..229 does not select the RFC 8323 signalling option tables there). *)
 Definition tcp_limit : Z := messageMaxLen.
 
 Definition view_of (coder : Z) (m : msg) : msg := if coder =? 0 then m else tcp_view m.
@@ -111,8 +130,27 @@ Fixpoint strm_classes (ms : list msg) (os : list (dobs * hobs * dobs)) : N :=
     end
   end.
 
+(* expected observation for code c, from Spec / SpecCode only *)
+Definition ucode_class (m : msg) (c : Z) (o : dobs * dobs) : N :=
+  let want := DOk (proj (with_code m c)) (blen (spec_udp_bytes m)) in
+  if dobs_eqb (fst o) want && dobs_eqb (snd o) want then 0%N else 10%N.
+
+Fixpoint ucode_classes (m : msg) (codes : list Z) (os : list (dobs * dobs)) : N :=
+  match codes with
+  | [] => 0%N
+  | c :: cr =>
+    match os with
+    | [] => 10%N     (* the encoder produced bytes (m is well-formed) but nothing was decoded *)
+    | o :: or => match ucode_class m c o with 0%N => ucode_classes m cr or | k => k end
+    end
+  end.
+
 Definition pclass (c : case) : N :=
   match c with
+  | UCodes m cap codes o_codes =>
+    if wf_udp m && (blen (m_opts m) <=? cap) && forallb code_ok codes
+    then ucode_classes m codes o_codes
+    else 0%N
   | Strm ms tail cap o_frames =>
     if forallb (fun m => wf_tcp tcp_limit m && (blen (m_opts m) <=? cap)) ms
     then strm_classes ms o_frames
